@@ -3,6 +3,7 @@
 mod act;
 mod body;
 mod c13;
+mod ffi;
 mod marker;
 mod pipe;
 mod radix;
@@ -10,6 +11,9 @@ mod router;
 mod tok;
 mod url;
 mod util;
+
+#[global_allocator]
+static GLOBAL: ffi::RecAlloc = ffi::RecAlloc;
 
 fn main() {
     let args: Vec<String> = std::env::args().collect();
@@ -20,6 +24,8 @@ fn main() {
     util::install_panic_hook();
     let (inp, outp) = (args[2].as_str(), args[3].as_str());
     match args[1].as_str() {
+        "ffi" => ffi::parent(inp, outp),
+        "ffi_child" => ffi::child(inp, outp, args.get(4).and_then(|x| x.parse().ok()).unwrap_or(0)),
         "c13" => util::run_cases(inp, outp, c13::run),
         "radix" => util::run_cases(inp, outp, radix::run),
         "radix_prefix" => util::run_cases(inp, outp, radix::run_prefix),
